@@ -290,6 +290,8 @@ func CustomEscape(b []byte) []byte {
 			out = append(out, "<<"...)
 		case '&':
 			out = append(out, "&&"...)
+		case '1', '7', 'e', 'r':
+			out = append(out, c, c) // digits and the letters of true/false are not exempt
 		default:
 			out = append(out, c)
 		}
@@ -632,6 +634,14 @@ func (in *Interp) iterOf(n *Node, v interface{}) iter {
 			return k.Interface(), v.Interface(), true
 		}}
 	case *PlainRanger:
+		return iter{false, func() (interface{}, interface{}, bool) {
+			_, v, end := r.Range()
+			if end {
+				return nil, nil, false
+			}
+			return nil, v.Interface(), true
+		}}
+	case *StackRanger:
 		return iter{false, func() (interface{}, interface{}, bool) {
 			_, v, end := r.Range()
 			if end {
